@@ -72,9 +72,13 @@ def inv(c, self, heap=None):
 def no_factory_call(c, since_loop_entry=False):
     """no event of this call (function-level clause) / since the loop's entry (loop invariant) is a factory call;
     stated over ABSOLUTE trace positions so that the facts of adjacent ranges (loop, callee) chain by plain instantiation"""
+    return no_events_of(c, ("factory-call",))
+
+
+def no_events_of(c, kinds):
     k = z3.Int("fk")
-    kind = c.ctx.E.event_kind("factory-call")
-    return z3.ForAll([k], z3.Implies(z3.And(c.tr_old_len <= k, k < c.trlen), Event.e_kind(z3.Select(c.tr, k)) != kind), patterns=[z3.Select(c.tr, k)])
+    ids = [c.ctx.E.event_kind(x) for x in kinds]
+    return z3.ForAll([k], z3.Implies(z3.And(c.tr_old_len <= k, k < c.trlen), z3.And(*[Event.e_kind(z3.Select(c.tr, k)) != i for i in ids])), patterns=[z3.Select(c.tr, k)])
 
 
 def frame_sets(self):
@@ -223,6 +227,7 @@ def _last_clause(c, H0, H1, dem1, A1, target):
 
 @contract(FAC + ":FactoryPool._grow", props=["C15"])
 class grow:
+    announce = True
     """after growing the active children's demands cover the target, and would not without the child spawned last; children are only
     ever added from the factory; nobody with demand is released; AssertionError iff the factory hands out a child without demand"""
     params = dict(self=FP, target=NumFin)
@@ -282,6 +287,7 @@ def shrink_inv(c, L, i):
 
 @contract(FAC + ":FactoryPool._shrink", props=["C15"])
 class shrink:
+    announce = True
     """a child is released only if the remaining active demand still covers the target, and afterwards no kept child could still be released
     that way (its demand exceeds the excess); children without demand are released; the factory is not called"""
     params = dict(self=FP, target=NumFin)
@@ -311,3 +317,172 @@ class shrink:
     loops = {0: Loop(inv=shrink_inv,
                      modifies=lambda c, L: [("all", "demand", lambda x, H0=H_of(L.self): z3.Select(H0, Z.mk_ref(x))), ("trace",)] + frame_sets(L.self),
                      local_types={"child": Child, "excess_demand": NumFin})}
+
+
+# ================================================================================ aggregation: supply / utilisation / allocation / demand
+def _union_parts(c, self):
+    return H_of(self), M_of(self)
+
+
+@contract(FAC + ":FactoryPool.supply.getter", props=["C15"])
+class supply_getter:
+    """supply is the sum over ALL children, active and released"""
+    params = dict(self=FP)
+    result = NumFin
+
+    def requires(c, self):
+        return inv(c, self)
+
+    def ensures(c, self, result):
+        use_set_lemmas(c, [c.new_heap], fields=("supply",))
+        sup = fld(c, "supply", c.new_heap)
+        return {"sum-over-hatchery-and-mortuary": result.r == ssum(H_of(self), sup) + ssum(M_of(self), sup)}
+
+
+def well_behaved(c, self, fields):
+    """hypothesis: every child is a well-behaved pool - the given attributes hold non-negative finite numbers (the shape of `Child`)"""
+    H, M = H_of(self), M_of(self)
+    x = z3.Const("wbx", Z.Val)
+    return z3.ForAll([x], z3.Implies(z3.Or(z3.Select(H, x), z3.Select(M, x)), z3.And(*[Child.fields[f].inv(z3.Select(fld(c, f, self._heap), Z.Val.id(x))) for f in fields])))
+
+
+def _mk_mean(field):
+    class mean_getter:
+        __doc__ = "%s is the mean over the children that have supply; 1.0 if there is none" % field
+        params = dict(self=FP)
+        result = NumFin
+
+        def requires(c, self):
+            return c.And(inv(c, self), well_behaved(c, self, ("supply", field)))
+
+        def ensures(c, self, result):
+            ctx = c.ctx
+            filters = ctx.ghost.get("filters", [])
+            unions = ctx.ghost.get("unions", [])
+            if not filters:
+                return {"one-pass-over-the-children": False}
+            F, U, cond, x = filters[-1]
+            H, M = H_of(self), M_of(self)
+            sup, val = fld(c, "supply", c.new_heap), fld(c, field, c.new_heap)
+            ctx.assume(lemma_card_zero(F))
+            y = z3.Const("my", Z.Val)
+            return {"over-exactly-the-children-that-have-supply": z3.ForAll([y], z3.Select(F, y) == z3.And(z3.Or(z3.Select(H, y), z3.Select(M, y)), R(sup, y) > 0)),
+                    "their-mean-or-one": result.r == z3.If(scard(F) == 0, z3.RealVal(1), ssum(F, val) / z3.ToReal(scard(F)))}
+    return mean_getter
+
+
+contract(FAC + ":FactoryPool.utilisation.getter", props=["C15"])(_mk_mean("utilisation"))
+contract(FAC + ":FactoryPool.allocation.getter", props=["C15"])(_mk_mean("allocation"))
+
+
+@contract(FAC + ":FactoryPool.demand.getter", props=["C15"])
+class demand_getter:
+    params = dict(self=FP)
+    result = NumFin
+
+    def ensures(c, self, result):
+        return {"the-requested-demand": result.same(self._demand)}
+
+
+@contract(FAC + ":FactoryPool.demand.setter", props=["C15"])
+class demand_setter:
+    """a demand write is only recorded - no child is touched, nothing is spawned; it is acted on at the next adjustment"""
+    params = dict(self=FP, value=NumFin)
+
+    def writes(c, self, value):
+        return [(self, "_demand")]
+
+    def ensures(c, self, value):
+        return {"recorded": self._demand.same(value)}
+
+
+# ================================================================================ run: one adjustment per interval
+def _env_keeps_released_children_released(ctx):
+    """HYPOTHESIS about the environment while the pool sleeps: children stay well-behaved - demands stay non-negative and a released
+    child (mortuary) keeps demand 0 (it was told to shut down); who is a child does not change behind the pool's back"""
+    me = ctx.ghost["c15_self"]
+    from pyvc.contracts import Spec
+
+    spec = Spec(ctx, ctx.snapshot(), ctx.snapshot())
+    v = spec.view(me, spec.new_heap)
+    return inv(spec, v)
+
+
+def run_iteration(c, L):
+    self = L.self
+    s0 = c.old(self)
+    sup1 = fld(c, "supply", c.new_heap)
+    use_set_lemmas(c, [c.new_heap], fields=("supply",))
+    S = ssum(H_of(s0), sup1) + ssum(M_of(s0), sup1)
+    D = self._demand
+    call = c.event_at(1)
+    shrink_call = c.event("call", FAC + ":FactoryPool._shrink", self, D)
+    grow_call = c.event("call", FAC + ":FactoryPool._grow", self, D)
+    return {"first-one-sleep-of-the-interval": c.event_at(0) == c.event("sleep", s0.interval),
+            "then-exactly-one-adjustment-towards-the-demand-read-after-the-sleep": c.And(c.n_events() >= 2, z3.If(S > D.r, call == shrink_call, call == grow_call)),
+            "the-invariant-is-kept": inv(c, self)}
+
+
+@contract(FAC + ":FactoryPool.run", props=["C15", "C09"])
+class factory_run:
+    """as a service the pool sleeps one interval, then adjusts once - shrinking if the children's supply exceeds the demand read at
+    that moment, growing otherwise - for as long as it runs; only a cancelled sleep (or a failing factory) ends it"""
+    params = dict(self=FP)
+    has_events = True
+    never_returns = True
+
+    def requires(c, self):
+        return c.And(inv(c, self), self.interval >= 0)
+
+    def setup(ctx, I, bound):
+        ctx.ghost["c15_self"] = bound["self"]
+        ctx.ghost["env_invariant"] = _env_keeps_released_children_released
+    setup = staticmethod(setup)
+
+    def writes(c, self):
+        return [("all", f, lambda x: True) for f in ("supply", "demand", "utilisation", "allocation", "_demand", "$mhas")]
+
+    raises = {"trio.Cancelled": lambda c, self, exc: True, "BaseException": lambda c, self, exc: True}
+    loops = {0: Loop(
+        inv=lambda c, L, k: {"the-pool-is-the-same": c.unchanged(L.self, "_hatchery", "_mortuary", "factory", "interval"), "invariant": inv(c, L.self), "interval": L.self.interval >= 0},
+        modifies=lambda c, L: [("all", f, lambda x: True) for f in ("supply", "demand", "utilisation", "allocation", "_demand", "$mhas")] + [("trace",)],
+        local_types={"supply": NumFin, "demand": NumFin},
+        step=lambda c, L, L0: run_iteration(c, L))}
+
+
+# ================================================================================ __init__
+def _mk_init(n):
+    class init:
+        __doc__ = "constructed with %d children: all of them active, nobody released, the demand is the sum of theirs" % n
+        body_key = FAC + ":FactoryPool.__init__"
+        new_object = "self"
+        params = {"self": FP, "*children": lambda ctx: VTuple([_sym_child(ctx, k) for k in range(n)]), "factory": Factory, "interval": NumFin}
+
+        def requires(c, self, children, factory, interval):
+            return c.And(*[children[a].t != children[b].t for a in range(n) for b in range(a + 1, n)])
+
+        def writes(c, self, children, factory, interval):
+            return [(self, f) for f in ("_demand", "_hatchery", "_mortuary", "factory", "interval")]
+
+        def ensures(c, self, children, factory, interval):
+            x = z3.Const("nx", Z.Val)
+            H, M = H_of(self), M_of(self)
+            total = sum([ch.demand.r for ch in children], z3.RealVal(0))
+            return {"hatchery-is-exactly-the-given-children": z3.ForAll([x], z3.Select(H, x) == z3.Or(*([x == ch.t for ch in children] or [z3.BoolVal(False)]))),
+                    "mortuary-is-empty": z3.ForAll([x], z3.Not(z3.Select(M, x))),
+                    "demand-is-the-sum-of-the-childrens": self._demand.r == total,
+                    "factory-and-interval-stored": c.And(self.factory.t == factory.t, self.interval.same(interval)),
+                    "two-different-set-objects": self._hatchery.id != self._mortuary.id}
+    return init
+
+
+def _sym_child(ctx, k):
+    sv = ctx.typed(fresh_val("child%d" % k), Child)
+    ctx.assume(z3.And(Z.Val.id(sv.t) > 0, Z.Val.id(sv.t) < ctx.alloc0))
+    ctx.assume_class(sv.t, Child)
+    ctx.touch(sv)
+    return sv
+
+
+for _n in (0, 1, 3):
+    contract(FAC + ":FactoryPool.__init__#children(%d)" % _n, props=["C15"])(_mk_init(_n))
